@@ -92,13 +92,16 @@ namespace east {
   }
 
   // arithmetic on E: running error analysis of a double evaluation
+  // sums: u (|a|+|b|) instead of u |a+b|: the library associates chains differently from the
+  // AST (`a+b-c` is reduced as a+(b-c), `-` before `+`), which is a legitimate evaluation of the
+  // same formula; the bound must hold for every association of an unparenthesised chain
   inline E operator+(const E& a, const E& b) {
     const R v = a.v + b.v;
-    return {v, a.e + b.e + U * fabsl(v)};
+    return {v, a.e + b.e + U * (fabsl(a.v) + fabsl(b.v))};
   }
   inline E operator-(const E& a, const E& b) {
     const R v = a.v - b.v;
-    return {v, a.e + b.e + U * fabsl(v)};
+    return {v, a.e + b.e + U * (fabsl(a.v) + fabsl(b.v))};
   }
   inline E operator-(const E& a) { return {-a.v, a.e}; }
   inline E operator*(const E& a, const E& b) {
